@@ -6,7 +6,7 @@ func init() {
 		ID:    "C02",
 		Title: "Every sub-request is valid for, and owned by, the service it is sent to",
 		Kernels: []Kernel{
-			{Name: "subrequests", Pkg: ".", Files: files, Entry: "VerifSubRequests", Mode: "seq",
+			{Name: "subrequests", Pkg: ".", Files: files, Entry: "VerifSubRequests", Mode: "seq", Native: true,
 				Quick: map[string]int{"k": 1}, Thorough: map[string]int{"k": 2},
 				Reach: []string{"operation translated"}, Functions: pipelineFns,
 				Known: []string{"C02-default-var", "C02-directive-var", "C02-node-without-fragment", "C02-abs-interface-field-plus-fragment", "C02-abs-id-next-to-fragment", "C02-abs-typename-next-to-union-fragment", "C02-abs-fragment-on-interface", "C02-root-typename"}},
@@ -22,7 +22,7 @@ func init() {
 		ID:    "C06",
 		Title: "Each mutation root field reaches its owning service exactly once",
 		Kernels: []Kernel{
-			{Name: "mutations", Pkg: ".", Files: files, Entry: "VerifMutations", Mode: "seq",
+			{Name: "mutations", Pkg: ".", Files: files, Entry: "VerifMutations", Mode: "seq", Native: true,
 				Reach: []string{"with a downstream failure", "healthy"}, Functions: pipelineFns,
 				Known: []string{"C06-cache-key-ignores-operation-type"}},
 		},
